@@ -4,7 +4,7 @@ use crate::rng::Rng;
 
 pub fn spec() -> ExampleSpec {
     ExampleSpec { name: "knapsack", generate, cli, sched_threads: |_| 0,
-        premises: "profits >= 0 and weights >= 1 (usize in the reader); capacity >= 0; items separated by single blanks as the reader splits on ' '" }
+        premises: "profits >= 0 and weights >= 0 (usize in the reader; one instance in four contains weightless items, a quarter of its items on average); capacity >= 0; items separated by single blanks as the reader splits on ' '" }
 }
 fn cli(path: &str, width: Option<usize>, _threads: usize) -> Vec<String> {
     let mut v = vec![path.to_string()];
@@ -12,9 +12,11 @@ fn cli(path: &str, width: Option<usize>, _threads: usize) -> Vec<String> {
     v
 }
 fn generate(rng: &mut Rng) -> ExInstance {
-    let n = 1 + rng.below(9);
+    let nmax = if rng.chance(1, 4) { 12 } else { 9 };
+    let n = 1 + rng.below(nmax);
     let capa = rng.below(25);
-    let items: Vec<(usize, usize)> = (0..n).map(|_| (rng.below(20), 1 + rng.below(12))).collect();
+    let weightless = rng.chance(1, 4);
+    let items: Vec<(usize, usize)> = (0..n).map(|_| (rng.below(20), if weightless && rng.chance(1, 4) { 0 } else { 1 + rng.below(12) })).collect();
     let mut content = String::new();
     if rng.chance(1, 3) { content.push_str("c generated instance\n"); }
     content.push_str(&format!("{n} {capa}\n"));
